@@ -88,6 +88,8 @@ type Cmd struct {
 	// sysmeta
 	Key   string `json:"key,omitempty"`
 	Value string `json:"value,omitempty"`
+	// register / deregister: "" = local, else the name of the peer the rows are imported from
+	Peer string `json:"peer,omitempty"`
 	// register
 	Node   string     `json:"node,omitempty"`
 	ID     string     `json:"id,omitempty"`
@@ -110,6 +112,7 @@ type Cmd struct {
 // ---------------------------------------------------------------- projected observations
 
 type NodeRow struct {
+	Peer string `json:"peer,omitempty"` // "" = local; peer-imported rows appear only in the oracle-only peer stream
 	Name string `json:"name"`
 	ID   string `json:"id"`
 	Addr int    `json:"addr"`
@@ -117,6 +120,7 @@ type NodeRow struct {
 	M    uint64 `json:"m"`
 }
 type SvcRow struct {
+	Peer   string   `json:"peer,omitempty"`
 	Node   string   `json:"node"`
 	ID     string   `json:"id"`
 	Name   string   `json:"name"`
@@ -131,6 +135,7 @@ type SvcRow struct {
 	M      uint64   `json:"m"`
 }
 type CheckRow struct {
+	Peer    string `json:"peer,omitempty"`
 	Node    string `json:"node"`
 	ID      string `json:"id"`
 	Status  int    `json:"status"`
@@ -147,6 +152,7 @@ type ConfRow struct {
 	Dest      bool       `json:"dest"`
 }
 type VIPRow struct {
+	Peer    string   `json:"peer,omitempty"`
 	Service string   `json:"service"`
 	IP      int64    `json:"ip"`
 	Manual  []string `json:"manual"`
@@ -202,6 +208,9 @@ type OracleFail struct {
 	// Cause: the known class of histories the failure belongs to ("" = none: the failure is in a
 	// history outside every excluded class); computed from the real dumps, not from the model
 	Cause string `json:"cause"`
+	// Rows: the differing rows of this failure in a machine-readable form (view specific); the attribution
+	// to an open finding is decided row by row
+	Rows []string `json:"rows,omitempty"`
 }
 
 type History struct {
@@ -401,7 +410,7 @@ func encode(c *Cmd) []byte {
 			Entry: &structs.SystemMetadataEntry{Key: c.Key, Value: c.Value}}
 	case "register":
 		t = structs.RegisterRequestType
-		r := &structs.RegisterRequest{Datacenter: "dc1", Node: c.Node, ID: types.NodeID(c.ID), Address: addrOf(c.Addr), SkipNodeUpdate: c.Skip}
+		r := &structs.RegisterRequest{Datacenter: "dc1", Node: c.Node, ID: types.NodeID(c.ID), Address: addrOf(c.Addr), SkipNodeUpdate: c.Skip, PeerName: c.Peer}
 		if c.Svc != nil {
 			r.Service = nodeService(c.Svc)
 		}
@@ -411,7 +420,7 @@ func encode(c *Cmd) []byte {
 		msg = r
 	case "deregister":
 		t = structs.DeregisterRequestType
-		msg = &structs.DeregisterRequest{Datacenter: "dc1", Node: c.Node, ServiceID: c.SvcID, CheckID: types.CheckID(c.CheckID)}
+		msg = &structs.DeregisterRequest{Datacenter: "dc1", Node: c.Node, ServiceID: c.SvcID, CheckID: types.CheckID(c.CheckID), PeerName: c.Peer}
 	case "txn":
 		t = structs.TxnRequestType
 		r := &structs.TxnRequest{Datacenter: "dc1"}
@@ -506,7 +515,7 @@ func ipNum(ip net.IP) int64 {
 }
 
 func svcRow(v *structs.ServiceNode) SvcRow {
-	r := SvcRow{Node: v.Node, ID: v.ServiceID, Name: v.ServiceName, Kind: string(v.ServiceKind), Native: v.ServiceConnect.Native,
+	r := SvcRow{Peer: v.PeerName, Node: v.Node, ID: v.ServiceID, Name: v.ServiceName, Kind: string(v.ServiceKind), Native: v.ServiceConnect.Native,
 		Dest: v.ServiceProxy.DestinationServiceName, Port: v.ServicePort, Ups: []string{}, VIP: -1, Extra: []string{},
 		C: v.CreateIndex, M: v.ModifyIndex}
 	for _, u := range v.ServiceProxy.Upstreams {
@@ -562,14 +571,11 @@ func (im *impl) dump() Dump {
 	st.WalkAllTables(func(table string, item interface{}) bool {
 		switch v := item.(type) {
 		case *structs.Node:
-			d.Nodes = append(d.Nodes, NodeRow{Name: v.Node, ID: string(v.ID), Addr: addrNum(v.Address), C: v.CreateIndex, M: v.ModifyIndex})
-			if v.PeerName != "" {
-				d.Other = append(d.Other, [2]string{"peer-node", v.Node})
-			}
+			d.Nodes = append(d.Nodes, NodeRow{Peer: v.PeerName, Name: v.Node, ID: string(v.ID), Addr: addrNum(v.Address), C: v.CreateIndex, M: v.ModifyIndex})
 		case *structs.ServiceNode:
 			d.Services = append(d.Services, svcRow(v))
 		case *structs.HealthCheck:
-			d.Checks = append(d.Checks, CheckRow{Node: v.Node, ID: string(v.CheckID), Status: statusNum(v.Status), Svc: v.ServiceID,
+			d.Checks = append(d.Checks, CheckRow{Peer: v.PeerName, Node: v.Node, ID: string(v.CheckID), Status: statusNum(v.Status), Svc: v.ServiceID,
 				SvcName: v.ServiceName, C: v.CreateIndex, M: v.ModifyIndex})
 		case *structs.Coordinate:
 			d.Coords = append(d.Coords, v.Node)
@@ -585,10 +591,7 @@ func (im *impl) dump() Dump {
 			}
 		case state.ServiceVirtualIP:
 			m := append([]string{}, v.ManualIPs...)
-			d.VIPs = append(d.VIPs, VIPRow{Service: v.Service.ServiceName.Name, IP: ipNum(v.IP), Manual: m})
-			if v.Service.Peer != "" {
-				d.Other = append(d.Other, [2]string{"peer-vip", v.Service.ServiceName.Name})
-			}
+			d.VIPs = append(d.VIPs, VIPRow{Peer: v.Service.Peer, Service: v.Service.ServiceName.Name, IP: ipNum(v.IP), Manual: m})
 		case state.FreeVirtualIP:
 			d.Free = append(d.Free, FreeRow{IP: ipNum(v.IP), Counter: v.IsCounter})
 		case *structs.GatewayService:
@@ -613,18 +616,20 @@ func (im *impl) dump() Dump {
 		}
 		return true
 	})
-	sort.Slice(d.Nodes, func(i, j int) bool { return d.Nodes[i].Name < d.Nodes[j].Name })
+	sort.Slice(d.Nodes, func(i, j int) bool { return d.Nodes[i].Peer+"\x00"+d.Nodes[i].Name < d.Nodes[j].Peer+"\x00"+d.Nodes[j].Name })
 	sort.Slice(d.Services, func(i, j int) bool {
-		return d.Services[i].Node+"\x00"+d.Services[i].ID < d.Services[j].Node+"\x00"+d.Services[j].ID
+		return d.Services[i].Peer+"\x00"+d.Services[i].Node+"\x00"+d.Services[i].ID < d.Services[j].Peer+"\x00"+d.Services[j].Node+"\x00"+d.Services[j].ID
 	})
-	sort.Slice(d.Checks, func(i, j int) bool { return d.Checks[i].Node+"\x00"+d.Checks[i].ID < d.Checks[j].Node+"\x00"+d.Checks[j].ID })
+	sort.Slice(d.Checks, func(i, j int) bool {
+		return d.Checks[i].Peer+"\x00"+d.Checks[i].Node+"\x00"+d.Checks[i].ID < d.Checks[j].Peer+"\x00"+d.Checks[j].Node+"\x00"+d.Checks[j].ID
+	})
 	sort.Strings(d.Coords)
 	sort.Slice(d.Confs, func(i, j int) bool { return d.Confs[i].Kind+"\x00"+d.Confs[i].Name < d.Confs[j].Kind+"\x00"+d.Confs[j].Name })
 	sort.Slice(d.KindNames, func(i, j int) bool {
 		return d.KindNames[i][0]+"\x00"+d.KindNames[i][1] < d.KindNames[j][0]+"\x00"+d.KindNames[j][1]
 	})
 	sort.Slice(d.Usage, func(i, j int) bool { return d.Usage[i][0] < d.Usage[j][0] })
-	sort.Slice(d.VIPs, func(i, j int) bool { return d.VIPs[i].Service < d.VIPs[j].Service })
+	sort.Slice(d.VIPs, func(i, j int) bool { return d.VIPs[i].Peer+"\x00"+d.VIPs[i].Service < d.VIPs[j].Peer+"\x00"+d.VIPs[j].Service })
 	sort.Slice(d.Free, func(i, j int) bool { return d.Free[i].IP < d.Free[j].IP })
 	gk := func(g GSRow) string { return fmt.Sprintf("%s\x00%s\x00%08d", g.Gateway, g.Service, g.Port) }
 	sort.Slice(d.GWS, func(i, j int) bool { return gk(d.GWS[i]) < gk(d.GWS[j]) })
@@ -900,37 +905,79 @@ func mapDiff(want, got map[string]string) (sub, what string) {
 	return strings.Join(parts, "+"), fmt.Sprintf("missing=%v extra=%v differ=%v", missing, extra, differ)
 }
 
-func (im *impl) oracle(step int, d *Dump) []OracleFail {
+// localView: the dump without the rows imported from peers.  Every derived view (kind-service-names, usage,
+// gateway-services, mesh-topology) is recomputed from the LOCAL registrations only: no derived row may owe its
+// existence to an imported row.  (Virtual IPs are per (peer, name) and are checked on the whole dump.)
+func localView(d *Dump) *Dump {
+	l := *d
+	l.Nodes, l.Services, l.Checks, l.VIPs = nil, nil, nil, nil
+	for _, n := range d.Nodes {
+		if n.Peer == "" {
+			l.Nodes = append(l.Nodes, n)
+		}
+	}
+	for _, x := range d.Services {
+		if x.Peer == "" {
+			l.Services = append(l.Services, x)
+		}
+	}
+	for _, c := range d.Checks {
+		if c.Peer == "" {
+			l.Checks = append(l.Checks, c)
+		}
+	}
+	for _, v := range d.VIPs {
+		if v.Peer == "" {
+			l.VIPs = append(l.VIPs, v)
+		}
+	}
+	return &l
+}
+
+func (im *impl) oracle(step int, all *Dump) []OracleFail {
+	d := localView(all)
 	var out []OracleFail
 	fail := func(kind, sub, what string) { out = append(out, OracleFail{Step: step, Kind: kind, Sub: sub, What: what}) }
+	failRows := func(kind, sub, what string, rows []string) {
+		sort.Strings(rows)
+		out = append(out, OracleFail{Step: step, Kind: kind, Sub: sub, What: what, Rows: rows})
+	}
 	st := im.store()
 
 	// ---- orphans (also covers the cascades: a removed parent leaves no row behind)
 	lc := strings.ToLower // the store keys nodes and service ids by their lower-cased form
+	// a row's parent is the row of the same peer ("" = local): an imported service under a local node of
+	// the same name is an orphan
 	nodes := map[string]bool{}
-	for _, n := range d.Nodes {
-		nodes[lc(n.Name)] = true
+	for _, n := range all.Nodes {
+		nodes[n.Peer+"\x00"+lc(n.Name)] = true
 	}
 	svcs := map[string]*SvcRow{}
-	for i := range d.Services {
-		s := &d.Services[i]
-		svcs[lc(s.Node+"/"+s.ID)] = s
-		if !nodes[lc(s.Node)] {
-			fail("orphan", "service-without-node", s.Node+"/"+s.ID)
+	pfx := func(peer string) string {
+		if peer == "" {
+			return ""
+		}
+		return "imported-"
+	}
+	for i := range all.Services {
+		s := &all.Services[i]
+		svcs[s.Peer+"\x00"+lc(s.Node+"/"+s.ID)] = s
+		if !nodes[s.Peer+"\x00"+lc(s.Node)] {
+			fail("orphan", pfx(s.Peer)+"service-without-node", s.Peer+":"+s.Node+"/"+s.ID)
 		}
 	}
-	for _, c := range d.Checks {
-		if !nodes[lc(c.Node)] {
-			fail("orphan", "check-without-node", c.Node+"/"+c.ID)
+	for _, c := range all.Checks {
+		if !nodes[c.Peer+"\x00"+lc(c.Node)] {
+			fail("orphan", pfx(c.Peer)+"check-without-node", c.Peer+":"+c.Node+"/"+c.ID)
 		}
 		if c.Svc != "" {
-			if s := svcs[lc(c.Node+"/"+c.Svc)]; s == nil {
-				fail("orphan", "check-without-service", c.Node+"/"+c.ID+" -> "+c.Svc)
+			if s := svcs[c.Peer+"\x00"+lc(c.Node+"/"+c.Svc)]; s == nil {
+				fail("orphan", pfx(c.Peer)+"check-without-service", c.Peer+":"+c.Node+"/"+c.ID+" -> "+c.Svc)
 			}
 		}
 	}
 	for _, n := range d.Coords {
-		if !nodes[lc(n)] {
+		if !nodes["\x00"+lc(n)] {
 			fail("orphan", "coordinate-without-node", n)
 		}
 	}
@@ -952,7 +999,13 @@ func (im *impl) oracle(step int, d *Dump) []OracleFail {
 		}
 		wantKN := recomputeKindNames(d)
 		if sub, what := setDiff("kind-service-names", split(wantKN, false), split(gotKN, false)); sub != "" {
-			fail("kindnames", sub, what)
+			var rows []string
+			for k := range split(gotKN, false) {
+				if !wantKN[k] {
+					rows = append(rows, k)
+				}
+			}
+			failRows("kindnames", sub, what, rows)
 		}
 		if sub, what := setDiff("kind-service-names", split(wantKN, true), split(gotKN, true)); sub != "" {
 			fail("kindnames", "destination-"+sub, what)
@@ -1033,6 +1086,7 @@ func (im *impl) oracle(step int, d *Dump) []OracleFail {
 	// "unclassified" and can never be attributed to a known finding.
 	{
 		groups := map[string][]string{}
+		groupKeys := map[string][]string{}
 		keys := map[string]bool{}
 		for k := range wantG {
 			keys[k] = true
@@ -1089,6 +1143,7 @@ func (im *impl) oracle(step int, d *Dump) []OracleFail {
 				}
 			}
 			groups[shape] = append(groups[shape], fmt.Sprintf("%s: want %q got %q", k, w, g))
+			groupKeys[shape] = append(groupKeys[shape], k)
 		}
 		var shapes []string
 		for sh := range groups {
@@ -1097,7 +1152,7 @@ func (im *impl) oracle(step int, d *Dump) []OracleFail {
 		sort.Strings(shapes)
 		for _, sh := range shapes {
 			sort.Strings(groups[sh])
-			fail("gateway-services", sh, strings.Join(groups[sh], "; "))
+			failRows("gateway-services", sh, strings.Join(groups[sh], "; "), groupKeys[sh])
 		}
 	}
 	for _, gw := range append(append([]string{}, tgwNames...), igwNames...) {
@@ -1140,8 +1195,69 @@ func (im *impl) oracle(step int, d *Dump) []OracleFail {
 		sort.Strings(lr)
 		gotT[t.Up+"|"+t.Down] = strings.Join(uniq(lr), ",")
 	}
-	if sub, what := mapDiff(wantT, gotT); sub != "" {
-		fail("topology", sub, what)
+	// one failure per differing pair, with the differing references as rows: "<up>|<down>#-<ref>" a
+	// reference (declaring instance) the table lacks, "#+<ref>" one it has without a declaring instance,
+	// "#-pair" / "#+pair" for pairs without references (ingress associations)
+	{
+		keys := map[string]bool{}
+		for k := range wantT {
+			keys[k] = true
+		}
+		for k := range gotT {
+			keys[k] = true
+		}
+		var ks []string
+		for k := range keys {
+			ks = append(ks, k)
+		}
+		sort.Strings(ks)
+		toSet := func(v string) map[string]bool {
+			m := map[string]bool{}
+			for _, r := range strings.Split(v, ",") {
+				if r != "" {
+					m[r] = true
+				}
+			}
+			return m
+		}
+		for _, k := range ks {
+			w, inW := wantT[k]
+			g, inG := gotT[k]
+			if inW && inG && w == g {
+				continue
+			}
+			W, G := toSet(w), toSet(g)
+			var rows []string
+			for r := range W {
+				if !G[r] {
+					rows = append(rows, k+"#-"+r)
+				}
+			}
+			for r := range G {
+				if !W[r] {
+					rows = append(rows, k+"#+"+r)
+				}
+			}
+			p := strings.SplitN(k, "|", 2)
+			shape := "refs"
+			switch {
+			case p[1] == "":
+				shape = "native-pair" // only a connect-native instance with upstreams has the empty downstream
+			case inW && !inG && len(W) == 0:
+				rows = append(rows, k+"#-pair")
+				shape = "missing:ingress-pair"
+				for gk, gv := range gotG {
+					q := strings.Split(gk, "|")
+					if q[0] == p[1] && q[1] == p[0] && gv == "ingress-gateway|false|-" {
+						shape = "missing:ingress-pair-of-listed-service"
+					}
+				}
+			case !inW && inG && len(G) == 0:
+				rows = append(rows, k+"#+pair")
+				shape = "extra:pair-without-refs"
+			}
+			failRows("topology", shape, fmt.Sprintf("%s: want [%s] (present %v) got [%s] (present %v)", k, w, inW, g, inG), rows)
+		}
 	}
 	// the query API: upstream names with source "registration" of every service name
 	for _, name := range append(append([]string{}, plainName...), "consul") {
@@ -1198,12 +1314,12 @@ func (im *impl) oracle(step int, d *Dump) []OracleFail {
 		}
 	}
 	manualSeen := map[string]string{}
-	for _, v := range d.VIPs {
+	for _, v := range all.VIPs {
 		if o, dup := byIP[v.IP]; dup {
-			fail("vip-unique", "same-ip-two-services", fmt.Sprintf("%s and %s both have %d", o, v.Service, v.IP))
+			fail("vip-unique", "same-ip-two-services", fmt.Sprintf("%s and %s both have %d", o, v.Peer+":"+v.Service, v.IP))
 		}
-		byIP[v.IP] = v.Service
-		vipOf[v.Service] = v.IP
+		byIP[v.IP] = v.Peer + ":" + v.Service
+		vipOf[v.Peer+"|"+v.Service] = v.IP
 		if freeSet[v.IP] {
 			fail("vip-unique", "assigned-ip-in-free-list", fmt.Sprintf("%s has %d", v.Service, v.IP))
 		}
@@ -1216,7 +1332,7 @@ func (im *impl) oracle(step int, d *Dump) []OracleFail {
 			}
 			manualSeen[m] = v.Service
 		}
-		got, err := st.VirtualIPForService(structs.PeeredServiceName{ServiceName: structs.NewServiceName(v.Service, nil)})
+		got, err := st.VirtualIPForService(structs.PeeredServiceName{Peer: v.Peer, ServiceName: structs.NewServiceName(v.Service, nil)})
 		if err != nil || ipNum(net.ParseIP(got))-vipBase != v.IP {
 			fail("vip-advertised", "api-VirtualIPForService", fmt.Sprintf("%s: %q vs %d (%v)", v.Service, got, v.IP, err))
 		}
@@ -1226,8 +1342,8 @@ func (im *impl) oracle(step int, d *Dump) []OracleFail {
 			fail("vip-unique", "free-ip-beyond-counter", fmt.Sprint(f))
 		}
 	}
-	for i := range d.Services {
-		s := &d.Services[i]
+	for i := range all.Services {
+		s := &all.Services[i]
 		if s.VIP == -1 {
 			continue
 		}
@@ -1236,19 +1352,24 @@ func (im *impl) oracle(step int, d *Dump) []OracleFail {
 			fail("vip-advertised", "non-connect-instance-advertises", s.Node+"/"+s.ID)
 			continue
 		}
-		cur, has := vipOf[n]
+		cur, has := vipOf[s.Peer+"|"+n] // an imported instance advertises the address of (its peer, name)
 		px := ""
 		if s.Kind == "connect-proxy" {
 			px = ":proxy" // the instance is a sidecar proxy: n is its destination, not its own name
 		}
+		if s.Peer != "" {
+			px += ":imported"
+		}
 		switch {
 		case !has:
-			fail("vip-advertised", "service-has-no-assignment"+px, fmt.Sprintf("%s/%s advertises %d for %q which has no virtual IP", s.Node, s.ID, s.VIP, n))
+			failRows("vip-advertised", "service-has-no-assignment"+px, fmt.Sprintf("%s/%s advertises %d for %q which has no virtual IP", s.Node, s.ID, s.VIP, n),
+				[]string{s.Peer + ":" + lc(s.Node+"/"+s.ID)})
 		case cur != s.VIP:
-			fail("vip-advertised", "differs-from-assignment"+px, fmt.Sprintf("%s/%s advertises %d, %q has %d", s.Node, s.ID, s.VIP, n, cur))
+			failRows("vip-advertised", "differs-from-assignment"+px, fmt.Sprintf("%s/%s advertises %d, %q has %d", s.Node, s.ID, s.VIP, n, cur),
+				[]string{s.Peer + ":" + lc(s.Node+"/"+s.ID)})
 		}
 	}
-	for _, o := range d.Other {
+	for _, o := range all.Other {
 		fail("unexpected-row", o[0], o[1])
 	}
 	return out
@@ -1310,11 +1431,22 @@ func unionKeys(a, b map[string]int) []string {
 // tracker follows, on the real dumps, the few facts about a history that delimit the classes of
 // histories on which the unchanged code is known to deviate (known_findings.json).
 type tracker struct {
-	flags map[string]bool
+	flags map[string]bool // classes of the history (reported in the evidence; not used for attribution any more, except two)
 	stale map[string]uint64 // instances (node/id -> modify index) whose advertised virtual IP lost its assignment while they stayed
+	// the recorded events an oracle failure must match ROW BY ROW to be attributed to an open finding:
+	oldPairs     map[string]bool // "kind|name", "connect-enabled|n" of the OLD definition of an instance redefined in place
+	oldNames     map[string]bool // names (own name, connect name) of such old definitions
+	droppedPairs map[string]bool // "up|down": an instance stopped listing up while updateMeshTopology ran with destination down
+	staleRefs    map[string]bool // "up|down#node/id": a pair of the OLD definition of an instance redefined in place
+	seenGW       map[string]bool // gateway-services rows seen since the last write of their gateway's config entry
+	imported     map[string]bool // names for which a connect instance IMPORTED from a peer was registered
+	staleImp     map[string]uint64 // imported sidecar proxies ("peer:node/id" -> modify index) whose advertised virtual IP lost its assignment while they stayed
 }
 
-func newTracker() *tracker { return &tracker{flags: map[string]bool{}, stale: map[string]uint64{}} }
+func newTracker() *tracker {
+	return &tracker{flags: map[string]bool{}, stale: map[string]uint64{}, oldPairs: map[string]bool{}, oldNames: map[string]bool{},
+		droppedPairs: map[string]bool{}, staleRefs: map[string]bool{}, seenGW: map[string]bool{}, imported: map[string]bool{}, staleImp: map[string]uint64{}}
+}
 
 func (t *tracker) observe(before, after *Dump) {
 	bs := map[string]*SvcRow{}
@@ -1384,6 +1516,9 @@ func (t *tracker) observe(before, after *Dump) {
 			t.flags["non-typical-instance-named-like-destination"] = true
 		}
 	}
+	for _, g := range after.GWS {
+		t.seenGW[fmt.Sprintf("%s|%s|%d", g.Gateway, g.Service, g.Port)] = true
+	}
 	// a service associated with gateways by more than one row (two gateways, or two listeners)
 	rowsOf := map[string]int{}
 	for _, g := range after.GWS {
@@ -1417,8 +1552,53 @@ func (t *tracker) observe(before, after *Dump) {
 	}
 }
 
+// observeImported (on the whole dumps): the virtual IP assignment of (peer, name) disappeared although an imported
+// sidecar proxy of that name stays and advertises it
+func (t *tracker) observeImported(before, after *Dump) {
+	av := map[string]bool{}
+	for _, v := range after.VIPs {
+		av[v.Peer+"|"+v.Service] = true
+	}
+	as := map[string]*SvcRow{}
+	for i := range after.Services {
+		r := &after.Services[i]
+		if r.Peer != "" {
+			as[r.Peer+":"+strings.ToLower(r.Node+"/"+r.ID)] = r
+		}
+	}
+	for _, v := range before.VIPs {
+		if v.Peer == "" || av[v.Peer+"|"+v.Service] {
+			continue
+		}
+		for k, r := range as {
+			if r.Peer == v.Peer && r.Kind == "connect-proxy" && r.Dest == v.Service && r.VIP >= 0 {
+				t.staleImp[k] = r.M
+				t.flags["imported-proxy-outlived-assignment"] = true
+			}
+		}
+	}
+	for k, m := range t.staleImp {
+		if r := as[k]; r == nil || r.M != m {
+			delete(t.staleImp, k)
+		}
+	}
+}
+
 // observeCmd: redefinitions inside one command (a transaction may define an instance twice)
 func (t *tracker) observeCmd(c *Cmd, before *Dump) {
+	if c.Peer != "" {
+		// imported rows define nothing locally; remember only the names imported connect instances stand for
+		if c.Kind == "register" && c.Svc != nil {
+			t.flags["peer-imported"] = true
+			switch {
+			case c.Svc.Kind == "connect-proxy":
+				t.imported[c.Svc.Dest] = true
+			case c.Svc.Native:
+				t.imported[c.Svc.Name] = true
+			}
+		}
+		return
+	}
 	type def struct {
 		name, kind, dest string
 		native          bool
@@ -1454,6 +1634,7 @@ func (t *tracker) observeCmd(c *Cmd, before *Dump) {
 		spelling[strings.ToLower(node+"/"+sp.ID)] = node
 		node = strings.ToLower(node) // instance identity is case-insensitive in the store
 		defer pairsTwice()
+		oldUps := ups[node+"/"+strings.ToLower(sp.ID)]
 		if o, ok := ups[node+"/"+strings.ToLower(sp.ID)]; ok && strings.Join(o, ",") != strings.Join(sp.Ups, ",") {
 			t.flags["upstreams-changed"] = true
 		}
@@ -1462,7 +1643,45 @@ func (t *tracker) observeCmd(c *Cmd, before *Dump) {
 		if sp.Kind == "connect-proxy" {
 			d.dest = sp.Dest
 		}
-		if o, ok := cur[node+"/"+strings.ToLower(sp.ID)]; ok && o != d {
+		key := node + "/" + strings.ToLower(sp.ID)
+		if o, ok := cur[key]; ok {
+			newConnect := d.kind == "connect-proxy" || d.native
+			oldConnect := o.kind == "connect-proxy" || o.native
+			has := func(xs []string, x string) bool {
+				for _, y := range xs {
+					if y == x {
+						return true
+					}
+				}
+				return false
+			}
+			if newConnect {
+				// updateMeshTopology: DeleteAll(up, NEW destination) for every upstream of the stored row it no longer lists
+				for _, u := range oldUps {
+					if !has(sp.Ups, u) {
+						t.droppedPairs[u+"|"+d.dest] = true
+					}
+				}
+			}
+			if oldConnect && (!newConnect || o.dest != d.dest) {
+				// the pairs of the old definition are never cleaned up
+				for _, u := range oldUps {
+					t.staleRefs[u+"|"+o.dest+"#"+key] = true
+				}
+			}
+			if o != d {
+				t.oldPairs[o.kind+"|"+o.name] = true
+				t.oldNames[o.name] = true
+				switch {
+				case o.kind == "connect-proxy":
+					t.oldPairs["connect-enabled|"+o.dest] = true
+					t.oldNames[o.dest] = true
+				case o.native:
+					t.oldPairs["connect-enabled|"+o.name] = true
+				}
+			}
+		}
+		if o, ok := cur[key]; ok && o != d {
 			t.flags["instance-redefined"] = true
 			if o.name == "consul" || d.name == "consul" {
 				t.flags["consul-renamed"] = true
@@ -1475,6 +1694,15 @@ func (t *tracker) observeCmd(c *Cmd, before *Dump) {
 			}
 		}
 	}
+	remove := func(node, id string) { // a delete runs the cleanups: a later write is a fresh registration
+		for k := range cur {
+			if strings.HasPrefix(k, strings.ToLower(node)+"/") && (id == "" || k == strings.ToLower(node+"/"+id)) {
+				delete(cur, k)
+				delete(ups, k)
+				delete(spelling, k)
+			}
+		}
+	}
 	switch c.Kind {
 	case "register":
 		if c.Svc != nil {
@@ -1483,8 +1711,22 @@ func (t *tracker) observeCmd(c *Cmd, before *Dump) {
 	case "txn":
 		for i := range c.Ops {
 			o := &c.Ops[i]
-			if o.Kind == "service" && (o.Verb == "set" || o.Verb == "cas") {
+			switch {
+			case o.Kind == "service" && (o.Verb == "set" || o.Verb == "cas"):
 				write(o.Node, o.Svc)
+			case o.Kind == "service" && (o.Verb == "delete" || o.Verb == "delete-cas"):
+				remove(o.Node, o.Svc.ID)
+			case o.Kind == "node" && (o.Verb == "delete" || o.Verb == "delete-cas"):
+				remove(o.Node, "")
+			}
+		}
+	case "conf_set", "conf_delete":
+		// the rows of a gateway are rebuilt when its entry is written: forget what was seen before
+		if c.Conf != nil && (c.Conf.Kind == structs.TerminatingGateway || c.Conf.Kind == structs.IngressGateway) {
+			for k := range t.seenGW {
+				if strings.HasPrefix(k, c.Conf.Name+"|") {
+					delete(t.seenGW, k)
+				}
 			}
 		}
 	}
@@ -1503,28 +1745,65 @@ func (t *tracker) cause(f *OracleFail) string {
 		if f.Sub == "destination-extra" && t.flags["destination-dropped-by-update"] {
 			return "destination-dropped-by-update"
 		}
-		// a name shared by instances of several kinds is fine by itself (since /repo 0bb54ea)
-		if f.Sub == "extra" && t.flags["instance-redefined"] {
+		// a name shared by instances of several kinds is fine by itself (since /repo 0bb54ea).  An unjustified
+		// row is attributed only if it is a pair of the OLD definition of an instance redefined in place.
+		if f.Sub == "extra" && len(f.Rows) > 0 {
+			for _, r := range f.Rows {
+				if !t.oldPairs[r] {
+					return ""
+				}
+			}
 			return "instance-redefined"
 		}
 	case "usage":
 		// no excluded class (since /repo 10e7cca a rename to or from "consul" is counted correctly)
 		return ""
 	case "vip-advertised":
-		// no excluded class: since /repo 8e1bd1c the advertised address of every instance (sidecar
-		// proxies included) must be its service's assignment
+		// no excluded class for local instances: since /repo 8e1bd1c the advertised address of every instance
+		// (sidecar proxies included) must be its service's assignment.  The repair does not cover IMPORTED
+		// sidecar proxies: exactly the instances recorded when their assignment was freed under them.
+		if strings.HasSuffix(f.Sub, ":proxy:imported") && len(f.Rows) == 1 {
+			if _, ok := t.staleImp[f.Rows[0]]; ok {
+				return "imported-proxy-outlived-assignment"
+			}
+		}
 		return ""
 	case "topology":
 		if strings.HasPrefix(f.Sub, "api-") {
 			return ""
 		}
-		// a pair declared by two instances is fine by itself (since /repo acb191c); what is still
-		// excluded: an instance dropped an upstream of such a pair, an instance was redefined, or a
-		// wildcard gateway is around
-		if (t.flags["pair-declared-twice"] && t.flags["upstreams-changed"]) || t.flags["instance-redefined"] || t.flags["wildcard-gateway"] {
-			return "upstream-dropped-or-instance-redefined-or-wildcard-gateway"
+		// row by row: a missing reference only on a pair some instance dropped, an extra reference only if it is
+		// the recorded stale reference of an instance redefined in place, an extra reference on a pair with the
+		// empty downstream (connect-native instances with upstreams are never cleaned up), a missing ingress
+		// pair only if the gateway still lists the service (shape computed by the oracle)
+		switch f.Sub {
+		case "missing:ingress-pair-of-listed-service":
+			return "ingress-wildcard-cleanup"
+		case "refs", "native-pair":
+			if len(f.Rows) == 0 {
+				return ""
+			}
+			cause := ""
+			for _, r := range f.Rows {
+				k := strings.SplitN(r, "#", 2)
+				c := ""
+				switch {
+				case strings.HasPrefix(k[1], "-") && t.droppedPairs[k[0]]:
+					c = "upstream-dropped"
+				case strings.HasPrefix(k[1], "+") && t.staleRefs[k[0]+"#"+k[1][1:]]:
+					c = "instance-redefined"
+				case strings.HasPrefix(k[1], "+") && f.Sub == "native-pair":
+					c = "native-upstreams"
+				}
+				if c == "" {
+					return ""
+				}
+				if cause == "" {
+					cause = c
+				}
+			}
+			return cause
 		}
-		// (an instance written under two spellings of its node name is fine since /repo dc11ff4)
 	case "gateway-services":
 		if strings.HasPrefix(f.Sub, "api-") {
 			return ""
@@ -1533,12 +1812,35 @@ func (t *tracker) cause(f *OracleFail) string {
 		// state); a history class is required in addition only where the shape alone could also be
 		// produced by something else
 		switch f.Sub {
-		case "missing:ingress-wildcard-name-without-typical-instance", "extra:ingress-wildcard-destination",
-			"extra:terminating-wildcard-non-typical-name", "missing:terminating-wildcard-non-typical-name":
+		case "missing:ingress-wildcard-name-without-typical-instance", "missing:terminating-wildcard-non-typical-name":
+			// "never written", not "wrongly deleted": a row that existed since the entry was last written and is
+			// gone now is not the order dependence
+			for _, r := range f.Rows {
+				if t.seenGW[r] {
+					return ""
+				}
+			}
+			return "wildcard-order"
+		case "extra:ingress-wildcard-destination", "extra:terminating-wildcard-non-typical-name":
 			return "wildcard-order"
 		case "extra:wildcard-row-of-absent-name", "extra:wildcard-row-of-unqualified-name":
-			if t.flags["instance-redefined"] {
+			redefined := len(f.Rows) > 0
+			for _, r := range f.Rows { // only rows of a name of the OLD definition of an instance redefined in place
+				if !t.oldNames[strings.Split(r, "|")[1]] {
+					redefined = false
+				}
+			}
+			if redefined {
 				return "instance-redefined"
+			}
+			imp := len(f.Rows) > 0
+			for _, r := range f.Rows { // only rows of a name an imported connect instance was registered for
+				if !t.imported[strings.Split(r, "|")[1]] {
+					imp = false
+				}
+			}
+			if imp {
+				return "imported-instance"
 			}
 			if f.Sub == "extra:wildcard-row-of-absent-name" && t.flags["destination-dropped-by-update"] {
 				return "destination-dropped-by-update"
@@ -1560,6 +1862,8 @@ type gen struct {
 	idx   uint64
 	mix   string
 	model bool // stay inside the modelled fragment
+	peers bool   // the peer stream: some registrations / deregistrations carry a peer name (imported rows)
+	peer  string // the peer of the command being generated ("" = local)
 }
 
 func (g *gen) pick(xs []string) string { return xs[g.rng.Intn(len(xs))] }
@@ -1581,7 +1885,7 @@ func (g *gen) casIndex(cur uint64) uint64 {
 }
 
 func (g *gen) existingNodes() []string {
-	_, ns, _ := g.im.store().Nodes(nil, nil, "")
+	_, ns, _ := g.im.store().Nodes(nil, nil, g.peer)
 	var out []string
 	for _, n := range ns {
 		out = append(out, n.Node)
@@ -1596,7 +1900,15 @@ func (g *gen) nodeName() string {
 	return g.pick(nodeNames)
 }
 
-func (g *gen) existingServices() []SvcRow { return g.im.dump().Services }
+func (g *gen) existingServices() []SvcRow {
+	var out []SvcRow
+	for _, s := range g.im.dump().Services {
+		if s.Peer == g.peer {
+			out = append(out, s)
+		}
+	}
+	return out
+}
 
 func (g *gen) subset(xs []string, max int) []string {
 	out := []string{}
@@ -1617,7 +1929,7 @@ func (g *gen) svcSpec(node string) *SvcSpec {
 			if g.rng.Intn(3) == 0 {
 				sp.Port = 80 + g.rng.Intn(2)
 			}
-			if s.Kind == "connect-proxy" && g.rng.Intn(3) == 0 {
+			if (s.Kind == "connect-proxy" || (s.Native && len(s.Ups) > 0)) && g.rng.Intn(3) == 0 {
 				sp.Ups = g.subset(plainName, 2)
 			}
 			return sp
@@ -1661,6 +1973,11 @@ func (g *gen) svcSpec(node string) *SvcSpec {
 	case 2:
 		sp.Name = g.pick(plainName)
 		sp.Native = true
+		// Catalog.Register accepts a connect-native service with Proxy.Upstreams (NodeService.Validate does
+		// not reject it) and ensureServiceTxn runs updateMeshTopology for it
+		if g.rng.Intn(4) == 0 {
+			sp.Ups = g.subset(plainName, 1)
+		}
 	case 3:
 		sp.Kind = "mesh-gateway"
 		sp.Name = "mgw"
@@ -1684,7 +2001,7 @@ func (g *gen) checkReq(node string) CheckReq {
 			}
 		}
 	}
-	_, cur, _ := g.im.store().NodeCheck(node, types.CheckID(c.ID), nil, "")
+	_, cur, _ := g.im.store().NodeCheck(node, types.CheckID(c.ID), nil, g.peer)
 	var curIdx uint64
 	if cur != nil {
 		curIdx = cur.ModifyIndex
@@ -1694,14 +2011,14 @@ func (g *gen) checkReq(node string) CheckReq {
 }
 
 func (g *gen) nodeIdx(name string) uint64 {
-	_, n, _ := g.im.store().GetNode(name, nil, "")
+	_, n, _ := g.im.store().GetNode(name, nil, g.peer)
 	if n != nil {
 		return n.ModifyIndex
 	}
 	return 0
 }
 func (g *gen) svcIdx(node, id string) uint64 {
-	_, s, _ := g.im.store().NodeService(nil, node, id, nil, "")
+	_, s, _ := g.im.store().NodeService(nil, node, id, nil, g.peer)
 	if s != nil {
 		return s.ModifyIndex
 	}
@@ -1711,7 +2028,7 @@ func (g *gen) svcIdx(node, id string) uint64 {
 func (g *gen) nodeID(node string) string {
 	id := g.pick(nodeIDs)
 	if g.rng.Intn(4) > 0 { // usually keep a node's own id
-		_, n, _ := g.im.store().GetNode(node, nil, "")
+		_, n, _ := g.im.store().GetNode(node, nil, g.peer)
 		if n != nil {
 			id = string(n.ID)
 		}
@@ -1833,6 +2150,15 @@ func (g *gen) next() Cmd {
 		}
 		r -= weights[k]
 	}
+	g.peer = ""
+	if g.peers && k <= 1 && g.rng.Intn(5) < 2 {
+		g.peer = "p1"
+		if g.rng.Intn(6) == 0 {
+			g.peer = "p2"
+		}
+	}
+	defer func() { g.peer = "" }()
+	c.Peer = g.peer
 	if len(g.existingNodes()) == 0 && g.rng.Intn(3) > 0 {
 		k = 0
 	}
@@ -1847,7 +2173,7 @@ func (g *gen) next() Cmd {
 		if g.mix == "rename" && g.rng.Intn(3) == 0 {
 			// rename: an id that currently belongs to another node
 			for _, n := range g.im.dump().Nodes {
-				if n.ID != "" && n.Name != c.Node {
+				if n.ID != "" && n.Name != c.Node && n.Peer == g.peer {
 					c.ID = n.ID
 				}
 			}
@@ -1959,8 +2285,11 @@ func runScript(id int, mix string, script []Cmd, g *gen, n int) History {
 		}
 		after := im.dump()
 		h.Cmds = append(h.Cmds, c)
-		tr.observeCmd(&c, &before)
-		tr.observe(&before, &after)
+		if res.Kind != "err" && res.Kind != "txn-err" { // a failed command wrote nothing: it defines nothing
+			tr.observeCmd(&c, localView(&before))
+		}
+		tr.observe(localView(&before), localView(&after))
+		tr.observeImported(&before, &after)
 		for _, f := range im.oracle(i, &after) {
 			f.Cause = tr.cause(&f)
 			h.Oracle = append(h.Oracle, f)
@@ -2068,6 +2397,52 @@ func corpus() map[string][]Cmd {
 		"kindnames-destination-dropped": {
 			{Kind: "conf_set", Idx: 3, Conf: &Conf{Kind: structs.ServiceDefaults, Name: "ext", Dest: true}},
 			{Kind: "conf_set", Idx: 4, Conf: &Conf{Kind: structs.ServiceDefaults, Name: "ext"}},
+		},
+		// an imported sidecar proxy under an ingress wildcard: the association it creates is of the LOCAL name
+		// web (which has no instance), and the deregistration of the imported row does not remove it
+		"peer-imported-proxy-under-ingress-wildcard": {
+			{Kind: "conf_set", Idx: 1, Conf: &Conf{Kind: structs.ProxyDefaults, Name: "global"}},
+			{Kind: "conf_set", Idx: 3, Conf: &Conf{Kind: structs.IngressGateway, Name: "igw", Listeners: []Listener{{Port: 8080, Services: []string{"*"}}}}},
+			{Kind: "register", Idx: 4, Peer: "p1", Node: "n1", Addr: 1, Svc: proxy("s1", "web-proxy", "web")},
+			{Kind: "deregister", Idx: 5, Peer: "p1", Node: "n1"},
+		},
+		// imported rows and local rows of the same names side by side, with virtual IPs: deregistering either
+		// side leaves the other side's rows, derived rows and addresses alone
+		"peer-same-names-both-sides": {
+			{Kind: "sysmeta", Idx: 2, Key: structs.SystemMetadataVirtualIPsEnabled, Value: "true"},
+			{Kind: "register", Idx: 3, Peer: "p1", Node: "n1", Addr: 1, Svc: native("s1", "web")},
+			reg(4, "n1", native("s1", "web")),
+			reg(5, "n1", proxy("s2", "db-proxy", "db", "web")),
+			{Kind: "deregister", Idx: 6, Peer: "p1", Node: "n1"},
+			{Kind: "register", Idx: 7, Peer: "p1", Node: "n1", Addr: 1, Svc: plain("s1", "db")},
+			{Kind: "deregister", Idx: 8, Node: "n1"},
+			{Kind: "deregister", Idx: 9, Peer: "p1", Node: "n1", SvcID: "s1"},
+		},
+		// the virtual IP of (p1, web) is freed with the last imported instance NAMED web although an imported
+		// sidecar proxy of web stays and advertises it (8e1bd1c repaired this for local instances only)
+		"peer-vip-imported-proxy-outlives-assignment": {
+			{Kind: "sysmeta", Idx: 2, Key: structs.SystemMetadataVirtualIPsEnabled, Value: "true"},
+			{Kind: "register", Idx: 3, Peer: "p1", Node: "n1", Addr: 1, Svc: proxy("s1", "web-proxy", "web")},
+			{Kind: "register", Idx: 4, Peer: "p1", Node: "n1", Addr: 1, Svc: plain("s3", "web")},
+			{Kind: "deregister", Idx: 5, Peer: "p1", Node: "n1", SvcID: "s3"},
+		},
+		// native instances with upstreams: the pairs (upstream, "") are written and never removed
+		"topology-native-upstreams": {
+			reg(3, "n1", &SvcSpec{ID: "s1", Name: "web", Native: true, Port: 80, Ups: []string{"db"}, Weights: true}),
+			{Kind: "deregister", Idx: 4, Node: "n1", SvcID: "s1"},
+		},
+		// an instance redefined in place from a sidecar proxy to a plain service keeps its topology reference
+		"topology-instance-redefined": {
+			reg(3, "n1", proxy("s1", "web-proxy", "web", "db")),
+			reg(4, "n1", plain("s1", "web")),
+		},
+		// a service listed by an ingress gateway and also covered by its wildcard listener on another port: the
+		// deregistration of the last connect instance removes the topology pair of the LISTED association too
+		"topology-ingress-wildcard-cleanup": {
+			{Kind: "conf_set", Idx: 1, Conf: &Conf{Kind: structs.ProxyDefaults, Name: "global"}},
+			{Kind: "conf_set", Idx: 3, Conf: &Conf{Kind: structs.IngressGateway, Name: "igw", Listeners: []Listener{{Port: 8080, Services: []string{"web"}}, {Port: 8081, Services: []string{"*"}}}}},
+			reg(4, "n1", native("s1", "web")),
+			{Kind: "deregister", Idx: 5, Node: "n1", SvcID: "s1"},
 		},
 		// regression (10e7cca) for the usage count; the rename itself still leaves a kind-service-name behind
 		"usage-instance-renamed-to-consul": {
@@ -2212,7 +2587,7 @@ func main() {
 			}
 			h := runScript(-1-i, "corpus:"+k, cp[k], nil, len(cp[k]))
 			setUniverse(lowerUniverse)
-			h.Model = !panicked(&h) && !mixedCase
+			h.Model = !panicked(&h) && !mixedCase && !strings.HasPrefix(k, "peer-")
 			j, _ := json.Marshal(&h)
 			w.Write(j)
 			w.WriteByte('\n')
@@ -2233,6 +2608,30 @@ func main() {
 			if shrunkSigs[sig] < 3 {
 				shrunkSigs[sig]++
 				h.Shrunk = shrink(h.Cmds, sig)
+			}
+		}
+		j, _ := json.Marshal(&h)
+		w.Write(j)
+		w.WriteByte('\n')
+	}
+
+	// ---- the oracle-only peer stream: the same mixes, two registrations/deregistrations in five carry a peer
+	// name (rows imported from a peer; outside the Coq model, which has no peers)
+	np := n / 3
+	prng := rand.New(rand.NewSource(*seed + 104729))
+	for i := 0; i < np; i++ {
+		mix := mixes[i%len(mixes)]
+		ln := 3 + prng.Intn(28)
+		g := &gen{rng: rand.New(rand.NewSource(prng.Int63())), mix: mix, peers: true}
+		pre := preamble(prng.Intn(8) > 0)
+		h := runScript(2*n+i, mix, pre, g, len(pre)+ln)
+		h.Mix = "peer:" + mix
+		h.Model = false
+		if len(h.Oracle) > 0 && !*noShrink {
+			sig := "peer/" + sigOf(h.Oracle[0])
+			if shrunkSigs[sig] < 3 {
+				shrunkSigs[sig]++
+				h.Shrunk = shrink(h.Cmds, sigOf(h.Oracle[0]))
 			}
 		}
 		j, _ := json.Marshal(&h)
